@@ -3,6 +3,7 @@
 mod heap_run;
 mod rng;
 mod srcsem;
+mod std_dump;
 
 fn main() {
   std::panic::set_hook(Box::new(|_| {}));
@@ -15,6 +16,7 @@ fn main() {
   match args[1].as_str() {
     "heap-run" => heap_run::main(rest),
     "src-run" => srcsem::main(rest),
+    "std-dump" => std_dump::main(rest),
     other => {
       eprintln!("unknown subcommand {other}");
       std::process::exit(2);
